@@ -579,7 +579,9 @@ func (e *specEnv) binary(n *ast.BinaryExpr) SV {
 		if oa || ob {
 			return SV{V: TV{SInt, tMulC(at, bt)}}
 		}
-		return SV{V: TV{SInt, app("*", at, bt)}}
+		// a product of two symbolic values goes through g_mul (defined as the product, with the
+		// divisibility facts attached to the term), like the products of the code
+		return SV{V: TV{SInt, app("g_mul", at, bt)}}
 	case token.QUO:
 		if d, ok := isNum(bt); ok && d.Sign() > 0 {
 			return SV{V: TV{SInt, tDivC(at, d)}}
@@ -1110,7 +1112,12 @@ func (e *specEnv) opaqueCall(pd *Pred, vals []SV) (SV, bool) {
 		e.st = scratch
 		body := e.boolOf(e.eval(pd.Expr))
 		e.st = realSt
-		for p := scratch.assumes; p != nil && p != realSt.assumes; p = p.tail {
+		// (the whole chain is searched: a literal that the use site had already named keeps that
+		// name in the scratch state, and the name means nothing in another unit's queries)
+		for p := scratch.assumes; p != nil; p = p.tail {
+			if !strings.Contains(body, "g_lit_") {
+				break
+			}
 			if a, ok := splitCtor(p.head, "="); ok && len(a) == 2 && strings.HasPrefix(a[0], "g_lit_") && !strings.HasPrefix(a[1], "(g_SeqI_len") && !isNumLit(a[1]) {
 				body = replaceWord(body, a[0], a[1])
 			}
